@@ -189,7 +189,7 @@ package remote
 //@   call filterReferrers requires [C14,C15:filter-iff-not-applied] artifactType != "" && !isFilterApplied(headerGet(resp.Header, headerOCIFiltersApplied), "artifactType") && !isFilterApplied(lookup(index.Annotations, spec.AnnotationReferrersFiltersApplied), "artifactType")
 //@   entry set pageDecoded = false
 //@   call Decode set pageDecoded = result == nil
-//@   ensures [C03,C15:decoded-page-continues-by-link-header] pageDecoded && (refFnCalls == 0 || refFnErr == nil) ==> plCalls == 1 && result1 == plErr && result0 == plURL
+//@   ensures [C03,C13,C15:decoded-page-continues-by-link-header] pageDecoded && (refFnCalls == 0 || refFnErr == nil) ==> plCalls == 1 && result1 == plErr && result0 == plURL
 //@   ensures [C15:at-most-one-callback] refFnCalls <= 1
 //@   ensures [C15:callback-error-identity] refFnCalls == 1 && refFnErr != nil ==> result1 == refFnErr
 //@
@@ -360,3 +360,18 @@ package remote
 //@   call Get requires [C14:one-merge-object-per-referrers-tag] args.key == box(referrersTag)
 //@   call Get assume [merge-objects-of-the-pool-satisfy-their-invariant: zero value does, every method keeps it] mergeRI(result0)
 //@   call Do requires [C14:this-change-enters-the-batch] args.item == change
+//@
+//@ // ---- tagging and pushing by reference go out under the parsed reference (C13, C20)
+//@ func (*manifestStore).Tag
+//@   requires [wf] s != nil && s.repo != nil
+//@   opt trust-frame
+//@   opt trust-nopanic
+//@   call ParseReference requires [C13,C20:reference-parsed-against-this-repository] args.reference == reference && args.r == s.repo
+//@   call push requires [C13,C20:tag-put-under-the-parsed-reference] args.reference == ref.Reference && args.expected == desc
+//@   modifies alloc
+//@ func (*manifestStore).PushReference
+//@   requires [wf] s != nil && s.repo != nil
+//@   opt trust-frame
+//@   call ParseReference requires [C13,C20:reference-parsed-against-this-repository] args.reference == reference && args.r == s.repo
+//@   call pushWithIndexing requires [C13,C20:manifest-put-under-the-parsed-reference] args.reference == ref.Reference && args.expected == expected
+//@   modifies alloc
